@@ -73,10 +73,10 @@ UNREACHED_JUSTIFIED = {
     "qclib/unitary.py:381-416 _apply_mcxs arcs": "QR synthesis of a VALID unitary, data-dependent wire patterns: C02",
     "qclib/gates/util.py:19-23 apply_ctrl_state '0' branch": "control patterns of the controlled gates (valid input): C04 / C05",
     "qclib/gates/util.py:36 u2_to_su2": "Mcg(up_to_diagonal=True) on a valid U(2): C04",
-    "qclib/state_preparation/mixed.py (whole class)": "MixedInitialize is not among the entry points of the property's "
-                                                      "sentence; its probability validation (lines 74-81) is C14's property "
-                                                      "and every raise there is probed by tools/props/c14.py; see the "
-                                                      "side-probe note about ensemble members",
+    "qclib/state_preparation/mixed.py (construction code)": "MixedInitialize is not among the entry points of the property's "
+                                                            "sentence; its validation (lines 68-84) is evaluated on both sides of "
+                                                            "every comparison by mixed_boundary (oracle only); the purification "
+                                                            "itself is C14's property; see the side-probe note about ensemble members",
 }
 
 
@@ -1075,6 +1075,416 @@ def u2_stream(ctx, nprng, for_mcu=False, real_diag=False):
     return out
 
 
+# ---------------------------------------------------------------------------------------------- boundary values
+# Inputs AT distance "a factor >= 3" on both sides of every threshold of the validators, each with all OTHER checks
+# passing (MC/DC style), for every size class.  Labels start with "bv:<family>|"; the family goes to a
+# `boundary:<family>:<classification>` counter.  They flow through the ordinary stream: tie (decision of the real
+# constructor vs the Lean model on the same doubles) AND oracle (accepted inputs must not raise, rejected ones must
+# raise before anything is returned).
+
+BOUNDARIES = {
+    "gates/initialize.py:46 num_qubits == 0 or not num_qubits.is_integer()":
+        "lengths 0 (log2 raises), 1 (== 0 alone), 2, 3, 4, 5, 7, 8, 9 (+ every length to 40), unit norm, all 8 dense classes",
+    "gates/initialize.py:50 isclose(sum|a|^2, 1.0, rel_tol=0.0, abs_tol=1e-10)":
+        "|sum-1| = 1e-11, 3e-11 accepted; 3.2e-10, 4e-10, 9e-10, 1e-9, 3e-9 rejected; above and below 1; n = 1, 2, 3, 4 qubits; Haar, "
+        "basis, uniform vectors, ndarray and list; all 8 dense classes incl. BlackBoxInitialize; first ensemble member of MixedInitialize",
+    "isometry.py:74/78 not log.is_integer() or log < 0": "rows / cols 1, 2, 3, 4, 5, 6, 7, 8, 9, 0 (log2 raises); `log < 0` cannot "
+                                                       "hold for an integer dimension >= 1 (dead conjunct)",
+    "isometry.py:82 log_cols > log_lines": "cols = rows/2, rows, 2*rows (both powers of two), rows + 1",
+    "isometry.py:90 np.allclose(V^dagger V, I) (atol 1e-8, rtol 1e-5)":
+        "one off-diagonal Gram entry = 1e-9, 3e-9 (accepted) / 3.2e-8, 1e-7, 1e-6 (rejected) with a unit diagonal; one diagonal entry "
+        "off by +-1e-7, +-1e-6, +-3e-6 (accepted: atol + rtol*1) / +-3.2e-5, +-1e-4 (rejected) with zero off-diagonals; first and last "
+        "column / column pair; 1, 2, 2^(n-1), 2^n columns of 2, 4, 8 rows",
+    "unitary.py:40-44 ndim != 2 or rows != cols or not log2(rows).is_integer()":
+        "1-D, 3-D; n x (n+1), (n+1) x n, n x 2n, 2n x n; square 1, 2, 3, 4, 5, 6, 7, 8, 9",
+    "unitary.py:46 is_unitary_matrix (atol 1e-8, rtol 1e-5)": "same Gram families as the isometry check at 2x2, 4x4, 8x8 for qsd / csd / qr",
+    "gates/util.py:43 matrix.shape != (2, 2)": "1x1, 1x2, 2x1, 2x3, 3x2, 3x3, 4x4, 1-D, 3-D (unitary / orthonormal where possible)",
+    "gates/util.py:47 np.allclose(M M^dagger, I)": "same Gram families on Haar, diagonal and anti-diagonal 2x2 bases (for the latter two "
+                                                  "both Gram matrices agree, so the classification is unambiguous at every size of "
+                                                  "the deviation), every gate class that calls check_u2",
+    "gates/util.py:53 cmath.isclose(det, 1.0) (rel_tol 1e-9)": "det = exp(i theta), theta = +-1e-10, +-3e-10 (SU(2)) / +-4e-9, +-1e-8, "
+                                                              "+-1e-6 (not SU(2)); tie of check_su2 and of LdMcSpecialUnitary; oracle on "
+                                                              "LdMcSpecialUnitary (the class that raises on it)",
+    "every predicate, one component at a time (counters boundary:component:<validator>:<component>)":
+        "Gram defect purely imaginary / purely real off the diagonal with an exactly unit diagonal (columns e0 and (i e0 + e1)/sqrt2, 8x4, "
+        "rank-1 [w, i w], Haar columns; first / last / adjacent pair; t = 3e-9 .. 1) for isometry.decompose (ccd, csd, knill), unitary() and "
+        "check_u2 (rows); diagonal only (one column); shape only; norm excess only in imaginary parts / only in real parts / only in the "
+        "first or last entry; length only; det off 1 only in its real / only in its imaginary part; mixed.py: one probability test at a time",
+    "state_preparation/mixed.py:76-80 any(p < 0), any(p > 1), isclose(sum p, 1.0)":
+        "oracle only (no Lean model of mixed.py in this property): p = 0.0 and 1.0 exactly (accepted), one negative entry with "
+        "every entry <= 1 and sum 1, single entry 1 + 1e-10 / 1 + 3e-10 (only `> 1.0` fires), sum off by +-3e-10 (accepted) / +-3e-9, "
+        "+-1e-8 (rejected)",
+}
+
+
+def _shear_ij(c, i, j, eps):
+    import numpy as np
+    sh = np.eye(c, dtype=complex)
+    sh[i, j] = eps
+    return sh
+
+
+def _gram_families(c, light):
+    """[(family, detail, kind, index, value)]: one Gram entry moved next to its tolerance, all others exact."""
+    out = []
+    pairs = [(0, c - 1)] + ([(c - 2, c - 1)] if c >= 3 and not light else [])
+    cols = [c - 1] + ([0] if c >= 2 and not light else [])
+    if c >= 2:
+        for eps in ((3e-9, 1e-7) if light else (1e-9, 3e-9, 3.2e-8, 1e-7, 1e-6)):
+            for (i, j) in pairs:
+                out.append(("gram off-diagonal", f"eps={eps:g} at ({i},{j})", "off", (i, j), eps))
+    for dlt in ((3e-6, -3e-6, 3.2e-5, -3.2e-5) if light else (1e-7, -1e-7, 1e-6, -1e-6, 3e-6, -3e-6, 3.2e-5, -3.2e-5, 1e-4, -1e-4)):
+        for j in cols:
+            out.append(("gram diagonal", f"delta={dlt:g} at {j}", "diag", j, dlt))
+    return out
+
+
+def _apply_right(V, kind, idx, val):
+    """perturb V^dagger V (left Gram): V @ (I + eps E_ij)  /  column j scaled by sqrt(1 + delta)"""
+    import numpy as np
+    V = np.array(V, dtype=complex)
+    if kind == "off":
+        return V @ _shear_ij(V.shape[1], idx[0], idx[1], val)
+    W = V.copy()
+    W[:, idx] = W[:, idx] * math.sqrt(1 + val)
+    return W
+
+
+def _apply_left(M, kind, idx, val):
+    """perturb M M^dagger (right Gram): (I + eps E_ij) @ M  /  row j scaled by sqrt(1 + delta)"""
+    import numpy as np
+    M = np.array(M, dtype=complex)
+    if kind == "off":
+        return _shear_ij(M.shape[0], idx[0], idx[1], val) @ M
+    W = M.copy()
+    W[idx, :] = W[idx, :] * math.sqrt(1 + val)
+    return W
+
+
+def dense_boundary(ctx, nprng):
+    import numpy as np
+    out = []
+    for n in (2, 4, 8):
+        k = ctx.rng.randrange(n)
+        e = np.zeros(n)
+        e[k] = 1.0
+        uni = _renorm(np.ones(n))
+        haar = _renorm(_unit(n, nprng))
+        for d in (1e-11, 3e-11, 3.2e-10, 1e-9, 3e-9):
+            for sg in (1, -1):
+                tag = f"{'+' if sg > 0 else '-'}{d:g}"
+                out.append((f"bv:norm threshold|basis{tag} len{n}", e * math.sqrt(1 + sg * d)))
+                out.append((f"bv:norm threshold|uniform{tag} len{n}", uni * math.sqrt(1 + sg * d)))
+                if d in (3e-11, 3.2e-10):
+                    out.append((f"bv:norm threshold|haar-list{tag} len{n}", ("LIST", haar * math.sqrt(1 + sg * d))))
+                    w = haar.astype(complex).copy()             # the whole excess in ONE amplitude
+                    a2 = abs(w[k]) ** 2
+                    if a2 > 0.05:
+                        w[k] = w[k] * math.sqrt((a2 + sg * d) / a2)
+                        out.append((f"bv:norm threshold|haar-one-entry{tag} len{n}", w))
+    return out
+
+
+def isometry_boundary(ctx, nprng):
+    import numpy as np
+    out = []
+    for (r, c) in ((2, 1), (2, 2), (4, 1), (4, 2), (4, 4), (8, 1), (8, 2), (8, 4), (8, 8)):
+        V = _haar(r, nprng)[:, :c]
+        light = r == 8 and c >= 4
+        for fam, detail, kind, idx, val in _gram_families(c, light):
+            out.append((f"bv:iso {fam}|{detail} {r}x{c}", _apply_right(V, kind, idx, val)))
+    # shapes next to the power-of-two / wide conditions (orthonormal columns where the shape allows)
+    for (r, c) in ((1, 1), (9, 1), (9, 2), (8, 3), (8, 5), (8, 6), (8, 7), (3, 2), (5, 2), (6, 4), (7, 1), (2, 3), (4, 5), (8, 9),
+                   (4, 3), (1, 2), (16, 1)):
+        # 1x1: the identity (a 0-qubit phase e^{i phi} makes qiskit's Rust QSD panic after validation: not this property's matter)
+        V = _haar(max(r, c), nprng)[:r, :c] if (r, c) != (1, 1) else np.eye(1)
+        out.append((f"bv:iso shape|{r}x{c}", V))
+    out.append(("bv:iso shape|1x1 scaled2", np.array([[2.0]])))
+    out.append(("bv:iso shape|vector1", np.array([1.0])))
+    out.append(("bv:iso shape|vector9", _renorm(_unit(9, nprng))))
+    out.append(("bv:iso shape|0x1", np.zeros((0, 1))))
+    return out
+
+
+def unitary_boundary(ctx, nprng):
+    import numpy as np
+    out = []
+    for n in (2, 4, 8):
+        U = _haar(n, nprng)
+        for fam, detail, kind, idx, val in _gram_families(n, n == 8):
+            out.append((f"bv:unitary {fam}|{detail} {n}x{n}", _apply_right(U, kind, idx, val)))
+        out.append((f"bv:unitary shape|{n}x{n + 1}", _haar(n + 1, nprng)[:n]))
+        out.append((f"bv:unitary shape|{n + 1}x{n}", _haar(n + 1, nprng)[:, :n]))
+    out.append(("bv:unitary shape|1x1", np.eye(1)))         # identity: see isometry_boundary about 0-qubit phases
+    out.append(("bv:unitary shape|9x9", _haar(9, nprng)))
+    out.append(("bv:unitary shape|1x1 scaled2", np.array([[2.0]])))
+    out.append(("bv:unitary shape|vector4", _renorm(_unit(4, nprng))))
+    out.append(("bv:unitary shape|0x2", np.zeros((0, 2))))
+    return out
+
+
+def u2_boundary(ctx, nprng, mode=""):
+    """mode '': SU(2) bases; 'mcu': eigenphases inside MCU's domain; 'realdiag': real main diagonal."""
+    import numpy as np
+    out = []
+    a = ctx.rng.uniform(0.3, 1.4)
+    b = ctx.rng.uniform(1.6, 3.0)
+    p = ctx.rng.uniform(0.2, 2.9)
+    if mode == "mcu":
+        V = _haar(2, nprng)
+        bases = [("haar", V @ np.diag([np.exp(1j * a), np.exp(1j * b)]) @ np.conj(V.T)), ("diag", np.diag([np.exp(1j * a), np.exp(1j * b)]))]
+    elif mode == "realdiag":
+        t = ctx.rng.uniform(0.2, 2.9)
+        bases = [("haar", np.array([[math.cos(t), -np.exp(1j * p) * math.sin(t)], [np.exp(-1j * p) * math.sin(t), math.cos(t)]])),
+                 ("antidiag", np.array([[0.0, -np.exp(1j * p)], [np.exp(-1j * p), 0.0]]))]
+    else:
+        V = _haar(2, nprng)
+        bases = [("haar", V / np.sqrt(np.linalg.det(V))), ("diag", np.diag([np.exp(1j * a), np.exp(-1j * a)])),
+                 ("antidiag", np.array([[0.0, -np.exp(1j * p)], [np.exp(-1j * p), 0.0]]))]
+    for bname, B in bases:
+        for fam, detail, kind, idx, val in _gram_families(2, False):
+            out.append((f"bv:u2 {fam}|{detail} {bname}", _apply_left(B, kind, idx, val)))
+            if kind == "off":
+                out.append((f"bv:u2 {fam}|{detail} transposed {bname}", _apply_left(B, kind, (idx[1], idx[0]), val)))
+    if mode == "":
+        S = bases[0][1]
+        D = bases[1][1]
+        for th in (1e-10, 3e-10, 4e-9, 1e-8, 1e-6):
+            for sg in (1, -1):
+                want = "accept" if th <= 3e-10 else "reject"
+                for bname, B in (("haar", S), ("diag", D)):
+                    out.append((f"bv:su2 det|theta={'+' if sg > 0 else '-'}{th:g} {bname} expect={want}", B * np.exp(0.5j * sg * th)))
+        # the shape test alone: orthonormal where the shape allows, and 2x2 shape with the unitarity next to the tolerance is above
+        out += [("bv:u2 shape|2x1", np.array([[1.0], [0.0]])), ("bv:u2 shape|1x2", np.array([[1.0, 0.0]])),
+                ("bv:u2 shape|1x1", np.array([[1.0]])), ("bv:u2 shape|2x3", _haar(3, nprng)[:2]), ("bv:u2 shape|3x2", _haar(3, nprng)[:, :2]),
+                ("bv:u2 shape|3x3", _haar(3, nprng)), ("bv:u2 shape|4x4", _haar(4, nprng)), ("bv:u2 shape|2x2x1", np.eye(2).reshape(2, 2, 1)),
+                ("bv:u2 shape|vector4", np.array([1.0, 0.0, 0.0, 1.0]))]
+    return out
+
+
+def boundary_streams(ctx, nprng):
+    return {"dense": dense_boundary(ctx, nprng), "unitary": unitary_boundary(ctx, nprng), "isometry": isometry_boundary(ctx, nprng),
+            "u2": u2_boundary(ctx, nprng), "u2-mcu": u2_boundary(ctx, nprng, "mcu"), "u2-realdiag": u2_boundary(ctx, nprng, "realdiag")}
+
+
+# ---- one component of a predicate violated at a time (all other components satisfied) -------------------------------------
+
+def _overlap_cols(V, i, j, t, imag):
+    """Column j replaced by (z * v_i + v_j) / sqrt(1 + t^2), z = t or i*t: every column keeps unit norm (the Gram DIAGONAL stays
+    exactly 1) and the only defect is the entry (i, j) (and its mirror) = z / sqrt(1 + t^2): purely real or purely imaginary."""
+    import numpy as np
+    W = np.array(V, dtype=complex)
+    z = (1j * t) if imag else t
+    W[:, j] = (z * W[:, i] + W[:, j]) / math.sqrt(1 + t * t)
+    return W
+
+
+COMPONENT_T = (3e-9, 1e-7, 1e-3, 0.1, 1.0)          # Gram entry t / sqrt(1 + t^2): inside the tolerance, next to it, gross
+
+
+def isometry_components(ctx, nprng):
+    import numpy as np
+    out = []
+    e = np.eye(8, dtype=complex)
+    s = math.sqrt(0.5)
+    # the literal witnesses: columns e0 and (i*e0 + e1)/sqrt(2); an 8x4 variant; the rank-1 matrix [w, i*w]
+    out.append(("bv:component:isometry:imaginary off-diagonal only|e0,(i e0+e1)/sqrt2 4x2", np.stack([e[:4, 0], (1j * e[:4, 0] + e[:4, 1]) * s], axis=1)))
+    out.append(("bv:component:isometry:imaginary off-diagonal only|e0,(i e0+e1)/sqrt2 2x2", np.stack([e[:2, 0], (1j * e[:2, 0] + e[:2, 1]) * s], axis=1)))
+    out.append(("bv:component:isometry:imaginary off-diagonal only|8x4 columns 2,3", np.stack([e[:, 0], e[:, 1], e[:, 2], (1j * e[:, 2] + e[:, 3]) * s], axis=1)))
+    for n in (2, 4, 8):
+        w = _renorm(_unit(n, nprng))
+        out.append((f"bv:component:isometry:imaginary off-diagonal only|rank-1 [w, i w] {n}x2", np.stack([w, 1j * w], axis=1)))
+        out.append((f"bv:component:isometry:real off-diagonal only|rank-1 [w, -w] {n}x2", np.stack([w, -w], axis=1)))
+    for (r, c) in ((2, 2), (4, 2), (4, 4), (8, 2), (8, 4), (8, 8)):
+        V = _haar(r, nprng)[:, :c]
+        pairs = [(0, c - 1)] + ([(c - 2, c - 1), (0, 1)] if c >= 3 else [])
+        for t in (COMPONENT_T if c < 8 else (3e-9, 1e-7, 0.1)):
+            for (i, j) in pairs[: (3 if t in (1e-7, 0.1) else 1)]:
+                for imag in (True, False):
+                    comp = "imaginary off-diagonal only" if imag else "real off-diagonal only"
+                    out.append((f"bv:component:isometry:{comp}|t={t:g} at ({i},{j}) {r}x{c}", _overlap_cols(V, i, j, t, imag)))
+    return out
+
+
+def unitary_components(ctx, nprng):
+    import numpy as np
+    out = []
+    for n in (2, 4, 8):
+        U = _haar(n, nprng)
+        pairs = [(0, n - 1)] + ([(n - 2, n - 1), (0, 1)] if n >= 3 else [])
+        for t in (COMPONENT_T if n < 8 else (3e-9, 1e-7, 0.1)):
+            for (i, j) in pairs[: (3 if t in (1e-7, 0.1) else 1)]:
+                for imag in (True, False):
+                    comp = "imaginary off-diagonal only" if imag else "real off-diagonal only"
+                    out.append((f"bv:component:unitary:{comp}|t={t:g} at ({i},{j}) {n}x{n}", _overlap_cols(U, i, j, t, imag)))
+        e = np.eye(n, dtype=complex)
+        W = e.copy()
+        W[:, n - 1] = (1j * e[:, 0] + e[:, n - 1]) * math.sqrt(0.5)
+        out.append((f"bv:component:unitary:imaginary off-diagonal only|identity with last column (i e0+e_last)/sqrt2 {n}x{n}", W))
+    return out
+
+
+def u2_components(ctx, nprng, mode=""):
+    """rows of M overlap by a purely imaginary / purely real number, unit row norms: M M^dagger = [[1, z], [conj z, 1]]"""
+    import numpy as np
+    out = []
+    a = ctx.rng.uniform(0.3, 1.4)
+    b = ctx.rng.uniform(1.6, 3.0)
+    V = _haar(2, nprng)
+    if mode == "mcu":
+        bases = [("haar", V @ np.diag([np.exp(1j * a), np.exp(1j * b)]) @ np.conj(V.T)), ("diag", np.diag([np.exp(1j * a), np.exp(1j * b)]))]
+    elif mode == "realdiag":
+        t0, p = ctx.rng.uniform(0.2, 2.9), ctx.rng.uniform(0, 6.28)
+        bases = [("haar", np.array([[math.cos(t0), -np.exp(1j * p) * math.sin(t0)], [np.exp(-1j * p) * math.sin(t0), math.cos(t0)]])),
+                 ("identity", np.eye(2, dtype=complex))]
+    else:
+        bases = [("haar", V / np.sqrt(np.linalg.det(V))), ("diag", np.diag([np.exp(1j * a), np.exp(-1j * a)])), ("identity", np.eye(2, dtype=complex))]
+    for bname, B in bases:
+        for t in COMPONENT_T:
+            for (i, j) in ((0, 1), (1, 0)):
+                for imag in (True, False):
+                    comp = "imaginary off-diagonal only" if imag else "real off-diagonal only"
+                    M = _overlap_cols(B.T, i, j, t, imag).T
+                    out.append((f"bv:component:check_u2:{comp}|t={t:g} rows ({i},{j}) {bname}", M))
+    if mode == "":
+        S = bases[0][1]
+        # det off 1 in its REAL part only (a common scale inside check_u2's tolerance) / see "su2 det" for the imaginary part
+        for dlt in (3e-10, -3e-10, 1e-8, -1e-8, 1e-6, -1e-6):
+            want = "accept" if abs(dlt) <= 3e-10 else "reject"
+            for bname, B in (("haar", S), ("diag", bases[1][1])):
+                out.append((f"bv:component:check_su2:real part of det only|det=1{dlt:+g} {bname} expect={want}", B * math.sqrt(1 + dlt)))
+    return out
+
+
+def dense_components(ctx, nprng):
+    """the excess / deficit of the norm carried ONLY by imaginary parts, only by real parts, only by the first / last entry"""
+    import numpy as np
+    out = []
+    for n in (2, 4, 8):
+        r_ = _renorm(_unit(n, nprng, real=True))
+        s_ = _renorm(_unit(n, nprng, real=True))
+        for d in (3e-11, 3.2e-10, 1e-9, 1e-4, 0.5, 1.0):
+            out.append((f"bv:component:dense norm:excess in imaginary parts only|+{d:g} len{n}", r_ + 1j * math.sqrt(d) * s_))
+            out.append((f"bv:component:dense norm:excess in real parts only|+{d:g} len{n}", math.sqrt(d) * s_ + 1j * r_))
+        for d in (3e-11, 3.2e-10, 1e-4):
+            for pos, name in ((0, "first"), (n - 1, "last")):
+                for part in ("real", "imaginary"):
+                    w = _renorm(_unit(n, nprng)).astype(complex)
+                    base = w[pos]
+                    other = 1.0 - abs(base) ** 2
+                    # keep the other part of that entry, move the chosen part so that the total becomes 1 + d
+                    keep = base.imag if part == "real" else base.real
+                    mov2 = 1.0 + d - other - keep * keep
+                    if mov2 <= 0:
+                        continue
+                    mv = math.copysign(math.sqrt(mov2), base.real if part == "real" else base.imag)
+                    w[pos] = complex(mv, keep) if part == "real" else complex(keep, mv)
+                    out.append((f"bv:component:dense norm:excess in the {part} part of the {name} entry only|+{d:g} len{n}", w))
+        # valid: unit norm although neither the real nor the imaginary parts alone are normalised
+        out.append((f"bv:component:dense norm:valid, real and imaginary parts each of norm^2 1/2|len{n}", (r_ + 1j * s_) * math.sqrt(0.5)))
+        out.append((f"bv:component:dense norm:valid, purely imaginary unit vector|len{n}", 1j * r_))
+    return out
+
+
+def component_streams(ctx, nprng):
+    return {"dense": dense_components(ctx, nprng), "unitary": unitary_components(ctx, nprng), "isometry": isometry_components(ctx, nprng),
+            "u2": u2_components(ctx, nprng), "u2-mcu": u2_components(ctx, nprng, "mcu"), "u2-realdiag": u2_components(ctx, nprng, "realdiag")}
+
+
+# existing boundary families = which single component of which validator they violate
+COMPONENT_OF = {"norm threshold": "dense norm:norm only (right length)", "iso gram diagonal": "isometry:diagonal only, one column (first / last)",
+                "iso gram off-diagonal": "isometry:off-diagonal only, one pair", "iso shape": "isometry:shape only",
+                "unitary gram diagonal": "unitary:diagonal only, one column (first / last)", "unitary gram off-diagonal": "unitary:off-diagonal only, one pair",
+                "unitary shape": "unitary:shape only", "u2 gram diagonal": "check_u2:diagonal only, one row",
+                "u2 gram off-diagonal": "check_u2:off-diagonal only", "u2 shape": "check_u2:shape only",
+                "su2 det": "check_su2:imaginary part of det only"}
+
+
+BOUNDARY_LENGTHS = {0, 1, 2, 3, 4, 5, 7, 8, 9}
+
+
+def _count_boundary(ctx, kind, label, cls, dec):
+    if label.startswith("bv:"):
+        fam = label[3:].split("|")[0]
+        ctx.count(f"boundary:{fam}:{cls.split(':')[0]}->{dec.split()[0]}")
+        if fam in COMPONENT_OF and cls != "valid":
+            ctx.count(f"boundary:component:{COMPONENT_OF[fam]}")
+    elif kind == "dense" and label.startswith("len") and label[3:].split("#")[0].isdigit() \
+            and int(label[3:].split("#")[0]) in BOUNDARY_LENGTHS:
+        ctx.count(f"boundary:dense length {int(label[3:].split('#')[0])}->{dec.split()[0]}")
+        if cls != "valid":
+            ctx.count("boundary:component:dense norm:length only (unit norm)")
+    elif kind == "dense" and label.startswith("norm") and label[4:5] in "+-":
+        ctx.count(f"boundary:norm threshold:{cls.split(':')[0]}->{dec.split()[0]}")
+
+
+def mixed_boundary(ctx):
+    """mixed.py validation (oracle only: this property has no Lean model of MixedInitialize): every comparison of lines 68-81
+    on both sides with the other checks passing, plus the norm check of the first ensemble member."""
+    import numpy as np
+    from qclib.state_preparation.mixed import MixedInitialize
+    from qiskit import QuantumCircuit
+    s2 = [np.array([1.0, 0.0]), np.array([0.0, 1.0])]
+    s3 = s2 + [np.array([math.sqrt(0.5), math.sqrt(0.5)])]
+    s1 = [np.array([0.6, 0.8])]
+    rows = [("p zero entry", s2, [0.0, 1.0], {}, "accept"), ("p one entry", s2, [1.0, 0.0], {}, "accept"),
+            ("p single 1.0", s1, [1.0], {}, "accept"),
+            ("p negative -0.1 (all <= 1, sum 1)", s3, [-0.1, 0.6, 0.5], {}, "ValueError"),
+            ("p negative -3e-10 (all <= 1, sum 1)", s3, [-3e-10, 0.5, 0.5 + 3e-10], {}, "ValueError"),
+            ("p negative -1e-6 (all <= 1, sum 1)", s3, [-1e-6, 0.5, 0.5 + 1e-6], {}, "ValueError"),
+            ("p above one 1+1e-10 (sum within tolerance)", s1, [1.0 + 1e-10], {}, "ValueError"),
+            ("p above one 1+3e-10 (sum within tolerance)", s1, [1.0 + 3e-10], {}, "ValueError"),
+            ("p sum +3e-10", s2, [0.5, 0.5 + 3e-10], {}, "accept"), ("p sum -3e-10", s2, [0.5, 0.5 - 3e-10], {}, "accept"),
+            ("p sum +3e-9", s2, [0.5, 0.5 + 3e-9], {}, "ValueError"), ("p sum -3e-9", s2, [0.5, 0.5 - 3e-9], {}, "ValueError"),
+            ("p sum +1e-8", s2, [0.5, 0.5 + 1e-8], {}, "ValueError"), ("p sum -1e-8", s2, [0.5, 0.5 - 1e-8], {}, "ValueError"),
+            ("p sum -1e-6", s3, [0.25, 0.25, 0.5 - 1e-6], {}, "ValueError"), ("p sum +1e-6", s3, [0.25, 0.25, 0.5 + 1e-6], {}, "ValueError"),
+            ("initializer not an Initialize class (int)", s2, None, {"initializer": int}, "TypeError"),
+            ("initializer not an Initialize class (QuantumCircuit)", s2, None, {"initializer": QuantumCircuit}, "TypeError")]
+    for n in (2, 4):
+        v = _renorm(np.arange(1.0, n + 1.0))
+        w = np.zeros(n)
+        w[0] = 1.0
+        for d, want in ((3e-11, "accept"), (-3e-11, "accept"), (3.2e-10, "ValueError"), (-3.2e-10, "ValueError"), (1e-9, "ValueError"),
+                        (-1e-9, "ValueError")):
+            rows.append((f"first member norm {d:+g} len{n}", [v * math.sqrt(1 + d), w], None, {}, want))
+    for n in (2, 4):
+        r_ = _renorm(np.arange(1.0, n + 1.0))
+        s_ = _renorm(np.arange(n + 0.0, 0.0, -1.0))
+        w = np.zeros(n)
+        w[0] = 1.0
+        rows.append((f"first member norm excess in imaginary parts only +1e-4 len{n}", [r_ + 1j * 1e-2 * s_, w], None, {}, "ValueError"))
+        rows.append((f"first member norm excess in imaginary parts only +1 len{n}", [r_ + 1j * s_, w], None, {}, "ValueError"))
+    for label, states, probs, kw, want in rows:
+        if want != "accept":
+            ctx.count("boundary:component:mixed:" + ("negative entry only" if "negative" in label else "entry above one only" if "above one" in label
+                                                     else "sum only" if label.startswith("p sum") else "initializer type only" if "initializer" in label
+                                                     else "first member norm only"))
+        fam = "mixed " + ("probabilities" if label.startswith("p ") else ("first member norm" if label.startswith("first") else "initializer type"))
+        got, msg = "accept", ""
+        with warnings.catch_warnings():
+            warnings.simplefilter("ignore")
+            try:
+                g = MixedInitialize([np.array(x) for x in states], probabilities=None if probs is None else list(probs), **kw)
+                try:
+                    g.definition
+                except Exception as e:             # passed validation; construction is not this property's matter
+                    msg = f" (definition raised {type(e).__name__})"
+            except Exception as e:
+                got, msg = type(e).__name__, str(e)[:100]
+        ctx.count(f"boundary:{fam}:{'accept' if want == 'accept' else 'reject'}")
+        key = f"mixed:{label}"
+        rep = {"probe": "mixed-boundary", "label": label}
+        if got == want:
+            ctx.ok(key, sample={"entry": "MixedInitialize", "input": label, "decision": got})
+        elif want == "accept":
+            ctx.fail("valid-rejected:" + key, f"MixedInitialize ({label}; probabilities={probs}) raised {got}: {msg}; the value is inside "
+                                              f"the documented tolerance", rep)
+        else:
+            ctx.fail("accepted:" + key, f"MixedInitialize ({label}; probabilities={probs}) was accepted{msg}, expected {want} "
+                                        f"(got {got} {msg})", rep)
+
+
+
 # ---------------------------------------------------------------------------------------------- real calls
 
 def _entry_callers(nprng_good):
@@ -1160,7 +1570,9 @@ def real_decision(fn, A, want_definition):
         warnings.simplefilter("ignore")
         try:
             obj = fn(A)
-        except Exception as e:
+        except BaseException as e:      # pyo3's PanicException (a Rust panic inside qiskit) derives from BaseException
+            if isinstance(e, (KeyboardInterrupt, SystemExit, GeneratorExit)):
+                raise
             frames = _qclib_frames(e)
             det = {"message": f"{type(e).__name__}: {str(e)[:120]}", "raised_in": list(frames[-1]) if frames else []}
             if _in_validation(frames):
@@ -1173,7 +1585,9 @@ def real_decision(fn, A, want_definition):
         try:
             circ = obj.definition if hasattr(obj, "definition") and not hasattr(obj, "qregs") else obj
             return "accept", {"stage": "circuit", "ops": len(getattr(circ, "data", []) or [])}
-        except Exception as e:
+        except BaseException as e:      # incl. pyo3's PanicException (0-qubit synthesis inside qiskit)
+            if isinstance(e, (KeyboardInterrupt, SystemExit, GeneratorExit)):
+                raise
             return "accept", {"stage": "definition-raised", "message": f"{type(e).__name__}: {str(e)[:100]}"}
 
 
@@ -1200,6 +1614,8 @@ def check_case(ctx, callers, name, variant, label, A, tie=True):
     cls = classify(kind, arr)
     if cls == "band":
         ctx.count("skipped-band")
+        if label.startswith("bv:"):
+            ctx.count(f"boundary-in-band:{label[3:].split('|')[0]}")
         return
     if kind == "isometry" and arr.ndim > 2:
         return
@@ -1214,6 +1630,7 @@ def check_case(ctx, callers, name, variant, label, A, tie=True):
     rep = {"entry": name, "variant": variant, "label": label, "as_list": as_list, "input": _payload(arr),
            "classification": cls, "observed": dec, "detail": det}
     ctx.count(f"{kind}:{cls}:{dec.split()[0]}")
+    _count_boundary(ctx, kind, label, cls, dec)
     if kind == "dense" and not as_list and arr.dtype not in (np.dtype(float), np.dtype(complex)):
         ctx.count(f"branch:dense vector dtype {arr.dtype}:{cls.split(':')[0]}:{dec.split()[0]}")
     late = det.get("stage") in ("definition-raised", "construction-raised")
@@ -1238,6 +1655,16 @@ def check_case(ctx, callers, name, variant, label, A, tie=True):
         # SU(2)-only class: a U(2) matrix outside SU(2) is outside the property's sentence ("2x2 unitary")
         su2_only = _short(name).startswith("LdMcSpecialUnitary") and "ValueError: Operator must be in SU(2)" in det.get("message", "")
         knill_small = name.endswith(":decompose") and variant == "knill" and arr.shape[0] < 4
+        if "expect=" in label and _short(name).startswith("LdMcSpecialUnitary"):
+            # the one class that REJECTS on check_su2: det = exp(i theta) on both sides of cmath.isclose's rel_tol = 1e-9
+            want = label.split("expect=")[1].split("#")[0].split()[0]
+            got = "accept" if dec == "accept" else "reject"
+            if got != want or (got == "reject" and not su2_only):
+                ctx.fail(f"su2-threshold:{short}:{label}", f"{short} on a unitary with det = exp(i theta) ({label}): {dec} {det}, "
+                                                            f"expected {want} (check_su2: |det - 1| <= 1e-9)", rep)
+            else:
+                ctx.ok(f"su2-threshold:{short}:{label}")
+            return
         if dec != "accept":
             if su2_only or knill_small:
                 ctx.count("documented-restriction")
@@ -1264,9 +1691,14 @@ def _note(ctx, key, text):
 
 def streams(ctx):
     nprng = ctx.nprng()
-    return {"dense": dense_stream(ctx, nprng), "unitary": unitary_stream(ctx, nprng), "isometry": isometry_stream(ctx, nprng),
-            "u2": u2_stream(ctx, nprng), "u2-mcu": u2_stream(ctx, nprng, for_mcu=True),
-            "u2-realdiag": u2_stream(ctx, nprng, real_diag=True)}
+    st = {"dense": dense_stream(ctx, nprng), "unitary": unitary_stream(ctx, nprng), "isometry": isometry_stream(ctx, nprng),
+          "u2": u2_stream(ctx, nprng), "u2-mcu": u2_stream(ctx, nprng, for_mcu=True),
+          "u2-realdiag": u2_stream(ctx, nprng, real_diag=True)}
+    for k, extra in boundary_streams(ctx, nprng).items():
+        st[k] = st[k] + extra
+    for k, extra in component_streams(ctx, nprng).items():
+        st[k] = st[k] + extra
+    return st
 
 
 def run_stream(ctx, tie=True):
@@ -1326,7 +1758,13 @@ def direct_validator_ties(ctx, st):
 def table_tie(ctx):
     """The generated table itself, as the driver sees it (names + guarded flags)."""
     import framework
-    x = extract_all(framework.REPO)
+    try:
+        x = extract_all(framework.REPO)
+    except Unsupported as e:
+        # the translator refuses the current source (already a broken obligation from `generate`): keep going, so that the
+        # stream still runs against the last generated model and the oracle can name a concrete failing input
+        ctx.obligation_broken("translator (entry-point table)", str(e))
+        return
     ctx.tie({"op": "table"}, [f"{n} guarded=true" for n, _, _ in x["table"]], label="entry-point table")
 
 
@@ -1428,9 +1866,14 @@ def _order_failures(ctx):
 def run(ctx):
     table_tie(ctx)
     run_stream(ctx, tie=True)
+    mixed_boundary(ctx)
     side_probes(ctx)
     non_numeric_probe(ctx)
     _order_failures(ctx)
+    ctx.notes.append("boundary values: every tolerance is approached to a factor 3 from both sides with all other checks passing; nothing is "
+                     "generated inside (tol/3, 3*tol): norm (3.3e-11, 3e-10), Gram entry (3.3e-9, 3e-8) off the diagonal and "
+                     "(3.3e-6, 3.0e-5) on it, det (3.3e-10, 3e-9), sum of probabilities (3.3e-10, 3e-9); MixedInitialize is evaluated by "
+                     "the oracle only (no Lean model of mixed.py in this property)")
     ctx.notes.append("excluded bands: |sum|a|^2-1| in [3.3e-11, 3e-10]; Gram deviation / (1e-8 + 1e-5*delta_ij) in [1/3, 3]; |det-1| in [3.3e-10, 3e-9] (check_su2)")
 
 
@@ -1450,6 +1893,7 @@ def search(ctx, hints):
         for variant, _ in callers[op["name"]]:
             check_case(ctx, callers, op["name"], variant, "from-tie-diff", A, tie=False)
     run_stream(ctx, tie=False)
+    mixed_boundary(ctx)
     _order_failures(ctx)
 
 
@@ -1457,6 +1901,9 @@ def replay(ctx, payload):
     r = payload["replay"]
     if r.get("probe") == "non-numeric":
         non_numeric_probe(ctx)
+        return
+    if r.get("probe") == "mixed-boundary":
+        mixed_boundary(ctx)
         return
     callers = _entry_callers(None)
     A = _from_payload(r["input"])
